@@ -14,7 +14,7 @@ T_QUICK, T_THOROUGH = 70, 1500
 FLOORS = {"histories": 1500, "steps": 20000, "full_rereads": 40000, "op:leaf": 8000, "op:whole": 2000, "op:ref": 800,
           "growths": 500, "via:handle": 3000, "via:view": 3000, "via:nested": 2000, "via:stale": 1000,
           "whole_from_xobject": 300, "values_with_shorter_strings": 1500, "leaf_from_string_object": 300,
-          "nested_size_checks": 20000}
+          "nested_size_checks": 20000, "whole_from_ndarray": 300}
 RULE = ("random type AST x value x placement; history of <=30 steps over {set scalar/string leaf of fitting size (strings of "
         "any utf-8 length up to the one they were created with, given as str or as an xo.String object), set "
         "whole nested array/struct of equal shape (plain data or an xobject living elsewhere), set reference (null / "
@@ -94,7 +94,10 @@ def run_case(w, rng):
                 if op == "ref":
                     newv = c.vg.value(nt)
                 else:
+                    # inside a whole assignment every reference is re-bound: the new value may null it or bind it anew
+                    c.vg.renull = 0.3 if (op == "whole" and has_refs(nt)) else 0.0
                     newv = c.vg.same_shape(nt, nv, caps=capv)
+                    c.vg.renull = 0.0
                     if _shorter(nt, newv, capv):
                         w.count("values_with_shorter_strings")
                 arg = plain(nt, newv, rng, np_scalars=True)
@@ -105,7 +108,13 @@ def run_case(w, rng):
                         arg = xo.String(arg, _buffer=rng.choice([None, env.buf]))
                         how = "string-object"
                         w.count("leaf_from_string_object")
-                    if op == "whole" and rng.random() < 0.3:
+                    if op == "whole" and k == "ar" and nt["it"]["k"] == "sc" and rng.random() < 0.4:
+                        # a NumPy array in C / Fortran / strided layout, possibly of another numeric type
+                        from xv.typegen import as_ndarray
+                        arg = as_ndarray(nt, newv, layout=rng.choice(["c", "f", "strided"]))
+                        how = "ndarray"
+                        w.count("whole_from_ndarray")
+                    elif op == "whole" and rng.random() < 0.3:
                         ncls = build(nt, c.cache)
                         arg = ncls(arg, _buffer=rng.choice([None, env.buf]))
                         how = "xobject"
